@@ -1,2 +1,17 @@
 pub mod common;
 pub mod c01;
+pub mod c14;
+
+use crate::engine::{Run, Verdict};
+use serde_json::Value;
+
+pub type RunFn = fn(&mut Run);
+pub type ReplayFn = fn(&Value) -> Result<Verdict, String>;
+
+pub fn registry(id: &str) -> Option<(RunFn, ReplayFn)> {
+    match id {
+        "C01" => Some((c01::run, c01::replay)),
+        "C14" => Some((c14::run, c14::replay)),
+        _ => None,
+    }
+}
